@@ -71,6 +71,11 @@ def family_s(tier, seed):
                     continue
                 out.append(dict(src=f"export function f(uint u, int i) -> int {{ {ustmt} return {iexpr}; }}", name=f"S shared literal {L}: `{ustmt}` then `{iexpr}`", tags=["S", "signedness"]))
                 out.append(dict(src=f"export function f(uint u, int i) -> int {{ i = {iexpr}; {ustmt} return i; }}", name=f"S shared literal {L}: `{iexpr}` then `{ustmt}`", tags=["S", "signedness"]))
+    # operations on two constants (a generator may fold them): the result is what the VM computes for those operands
+    for op in ops_i:
+        out.append(dict(src=f"export function f(int a) -> int {{ return K0 {op} K1; }}", name=f"S K0{op}K1", tags=["S", "constant-operands"]))
+        out.append(dict(src=f"export function f(int a) -> int {{ return a + K0 {op} K1; }}", name=f"S a+K0{op}K1", tags=["S", "constant-operands"]))
+        out.append(dict(src=f"export function f(int a) -> int {{ return (K0 {op} K1) * a - (K1 {op} K0); }}", name=f"S (K0{op}K1)*a-(K1{op}K0)", tags=["S", "constant-operands"]))
     out.append(dict(src="export function f() -> int { return K0; }", name="S K", tags=["S", "wide-constant"]))
     out.append(dict(src="export function f(int a) -> int { a = K0; return a; }", name="S store K to argument", tags=["S", "wide-constant"]))
     out.append(dict(src="export function f(int a, int b) -> int { a = a + b; b = a * K0; return a - b; }", name="S argument stores", tags=["S"]))
